@@ -74,7 +74,7 @@ func decodeDiameterAVP(data []byte) (DiameterAVP, int, error) {
 		for len(subAVPData) >= 8 {
 			subAVP, consumed, err := decodeDiameterAVP(subAVPData)
 			if err != nil {
-				break
+				return DiameterAVP{}, 0, err
 			}
 			avp.GroupedAVPs = append(avp.GroupedAVPs, subAVP)
 			subAVPData = subAVPData[consumed:]
